@@ -42,6 +42,7 @@ def main():
     ap.add_argument('--only')
     ap.add_argument('-j', type=int, default=14)
     ap.add_argument('-v', action='store_true')
+    ap.add_argument('--summary', default='/tmp/seedtest-summary.json')
     a = ap.parse_args()
     seeds = []
     for prop in sorted(os.listdir(a.seeds)):
@@ -79,7 +80,7 @@ def main():
                     for l in r['lines']:
                         print('      %s %s' % (p, l))
         summary[name] = {'detected_by': hit, 'analysis_error': err}
-    json.dump(summary, open('/tmp/seedtest-summary.json', 'w'), indent=1)
+    json.dump(summary, open(a.summary, 'w'), indent=1)
     if a.all and a.seeds == os.path.join(VERIF, 'seeded'):
         for name, res in summary.items():
             mp = os.path.join(a.seeds, name, 'meta.json')
